@@ -148,3 +148,76 @@ def r_editdelta(P, chk):
                               "token tree before the edit no longer match" % (cal, buf, buf, later["l"]))
     chk.floor(rid, n, 2, "in-place replacement call sites")
     chk.analysed[rid] = {"call_sites": n}
+
+
+def r_rawformat(P, chk):
+    """A writer decides whether a `{=format}` raw-source filter addresses it by asking raw_filter_text_matches / raw_filter_matches
+    with *its own* format constant.  The package formats (EPUB, TextBundle) reuse the HTML writer and have no arm (or another
+    arm) in that function, so passing the run-time output format instead drops `{=html}` source from the packaged document only."""
+    from .prog import edpe_blocks, block_nodes, const_value, strip, key
+    rid = "R-RAWFORMAT"
+    chk.rule(rid, "every raw-filter test in a writer passes a constant output format, and all tests of one unit select the same arm of "
+                  "raw_filter_text_matches (the packaged document must be the plain rendering)")
+    rf = P.func("raw_filter_text_matches", "writer.c")
+    fmts = dict(P.enumerators("output_format"))
+    inv = {v: k for k, v in fmts.items()}
+
+    def arm(v):
+        blocks = edpe_blocks(rf, "format", v)
+        lits = set()
+        for n in block_nodes(rf, blocks):
+            if n["k"] == "CallExpr" and n.get("callee") == "strstr":
+                l = strip(n["c"][2])
+                if l is not None and l["k"] == "StringLiteral":
+                    lits.add(l["s"])
+        return frozenset(lits)
+    n = 0
+    per_unit = {}
+    for f in P.all_funcs:
+        if not P.first_party(f) or f.unit.base == "writer.c":
+            continue
+        for c in f.calls():
+            if c.get("callee") not in ("raw_filter_text_matches", "raw_filter_matches"):
+                continue
+            n += 1
+            a = c["c"][-1]
+            vals = set()
+            cv = const_value(a)
+            if cv is not None:
+                vals.add(cv)
+            else:
+                sa = strip(a)
+                if sa is not None and sa["k"] == "DeclRefExpr" and sa.get("dk") == "Parm" and f.static:
+                    pi = [i for i, q in enumerate(f.params) if q[0] == sa["n"]]
+                    for g in f.unit.funcs.values():
+                        for c2 in g.calls(f.name):
+                            v2 = const_value(c2["c"][1 + pi[0]]) if pi and 1 + pi[0] < len(c2["c"]) else None
+                            vals.add(v2)
+                else:
+                    vals.add(None)
+            ok = bool(vals) and None not in vals
+            chk.obligation(rid, "%s %s: %s(.., %s) names a constant format" % (f.where(c), f.name, c["callee"],
+                           "/".join(inv.get(v, str(v)) for v in sorted(v for v in vals if v is not None)) or key(a)), ok)
+            if not ok:
+                chk.violation(rid, "rawformat:%s:%s" % (f.unit.base, f.name), f.where(c),
+                              "%s asks %s with `%s`, a run-time value: when this writer renders the main document of a package "
+                              "(EPUB, TextBundle) the filter is judged for the package format and `{=%s}` raw source disappears from "
+                              "the packaged document" % (f.name, c["callee"], f.src(a)[:40], "html"))
+                continue
+            per_unit.setdefault(f.unit.base, []).append((f, c, {arm(v) for v in vals}))
+    if not any(a3 for items in per_unit.values() for _, _, a2 in items for a3 in a2):
+        # raw_filter_text_matches no longer decides by strstr on literals (a table, a helper): the arm comparison has nothing to
+        # read; the constant-format obligation above still stands
+        chk.notes.append("R-RAWFORMAT: arms of raw_filter_text_matches not readable (no strstr literals reached); only constness checked")
+        per_unit = {}
+    for unit, items in sorted(per_unit.items()):
+        arms = set()
+        for _, _, a2 in items:
+            arms |= a2
+        ok = len(arms) == 1 and all(arms)
+        chk.obligation(rid, "%s: all raw-filter tests select the arm %s" % (unit, sorted(next(iter(arms))) if arms else "?"), ok)
+        if not ok:
+            f0, c0, _ = items[0]
+            chk.violation(rid, "rawformat:arm:%s" % unit, f0.where(c0), "the raw-filter tests of %s select different (or no) arms of "
+                          "raw_filter_text_matches: %s" % (unit, [sorted(x) for x in arms]))
+    chk.floor(rid, n, 6, "raw-filter tests in the writers")
